@@ -503,7 +503,7 @@ class Bec2File:
                 auth_block, session_key = auth_block_cls.unpack(
                     tlv_value, ext_encryptors
                 )
-            except KeyError:
+            except (KeyError, NotImplementedError):
                 auth_blocks.append(UnknownAuthBlock(tlv_tag, tlv_value))
             else:
                 auth_blocks.append(auth_block)
